@@ -28,6 +28,37 @@ def posterior_case(draw, **kw):
     return case
 
 
+@st.composite
+def cg_larger_case(draw):
+    """Systems on which CG needs (many) more than its minimum of 10 iterations: n in 40..150 points spread over [0, L]^d with L several
+    length-scales, solves by CG (no Lanczos), the training tolerance cg_tolerance left at its loose default so that only
+    eval_cg_tolerance makes the solves of a prediction exact.  The coordinates come from a torch generator seeded by a drawn integer
+    and are stored in the case (replay does not depend on the generator)."""
+    d = draw(st.integers(1, 3))
+    n = draw(st.integers(40, 150))
+    ns = draw(st.integers(1, 3))
+    g = torch.Generator().manual_seed(draw(st.integers(0, 2**31 - 1)))
+    L = draw(st.sampled_from([3.0, 6.0, 10.0]))
+    rnd = lambda *shape: (torch.rand(*shape, generator=g, dtype=torch.float64) * 1e4).round() / 1e4
+    case = {
+        "d": d, "mb": [], "xb": [], "tb": [], "n": n, "ns": ns,
+        "mean": draw(kern.mean_recipe(d, [])),
+        "kernel": draw(kern.kernel_tree(d, [], depth=1, names=kern.STATIONARY, psd_only=True)),
+        "lik": {"l": "Gaussian", "batch": [], "noise": [draw(kern.pos(0.01, 0.5))]},
+        "X": (L * rnd(n, d)).tolist(), "y": (4 * rnd(n) - 2).tolist(), "Xs": (L * rnd(ns, d)).tolist(),
+    }
+    s = draw(G.pred_settings(n + ns))
+    s["max_chol"], s["fpv"], s["skip_var"] = 0, False, False
+    s["fc"] = [s["fc"][0], s["fc"][1], True]
+    s["train_cg"] = "default"
+    case["settings"] = s
+    case["cg_limit"] = 1e-4
+    case["prior_mode"] = False
+    case["second_call"] = draw(st.integers(0, 3)) == 0
+    case["torch_seed"] = draw(st.integers(0, 2**31 - 1))
+    return case
+
+
 def run_posterior(case, ctx: Ctx):
     s = case["settings"]
     kdesc = kern.describe(case["kernel"])
@@ -52,12 +83,22 @@ def run_posterior(case, ctx: Ctx):
         gap = float(((ev[..., 1:] - ev[..., :-1]) / ev[..., -1:]).min()) if A.shape[-1] > 1 else 1.0
         if gap < 1e-3 or kappa > 1e4:
             raise Discard("lanczos path: clustered spectrum (relative gap < 1e-3) or kappa > 1e4")
+    elif G.is_iterative(s) and case.get("cg_limit"):
+        # systems on which CG needs many iterations: the dependency's CG has an accuracy floor of ~1e-5 (relative to the largest entry
+        # of the solution) there.  Calibrate each of the two solves at cg_limit and compare at the error that limit implies.
+        r1, r2 = (y - mx).expand(*A.shape[:-1]).unsqueeze(-1), Kxs.expand(*A.shape[:-2], n, ns)
+        G.cg_calibration(A, r1, s, limit=case["cg_limit"])
+        G.cg_calibration(A, r2, s, limit=case["cg_limit"])
+        amp = float(Kxs.abs().sum(-2).max()) * max(float(torch.linalg.solve(A, r1).abs().max()), float(torch.linalg.solve(A, r2).abs().max()))
+        cg_tol = 10 * case["cg_limit"] * amp
     elif G.is_iterative(s):
         G.cg_calibration(A, torch.cat([(y - mx).expand(*A.shape[:-1]).unsqueeze(-1), Kxs.expand(*A.shape[:-2], n, ns)], -1), s)
     mean_w = mean_w.expand(*bshape, ns)
     cov_w = cov_w.expand(*bshape, ns, ns)
     if G.uses_lanczos(s):
         rtol = atol = 2e-3
+    elif G.is_iterative(s) and case.get("cg_limit"):
+        rtol, atol = 1e-4, max(1e-5, cg_tol)
     elif G.is_iterative(s):
         rtol, atol = 1e-4, 1e-5
     else:
@@ -83,6 +124,18 @@ def run_posterior(case, ctx: Ctx):
             else:
                 pred = lik(out)
             pmn, pcv = pred.mean, pred.covariance_matrix
+    if case.get("cg_limit"):
+        # cg_tolerance is the tolerance of *training* solves: a prediction (every solve of which runs at eval_cg_tolerance) must not
+        # depend on it.  Same model, fresh instance, cg_tolerance tight: identical computation, identical result.
+        with ctx.observing("predict.tight_train_cg"):
+            model2, lik2 = G.build_exact(case)
+            model2.eval()
+            lik2.eval()
+            with G.settings_ctx({**s, "train_cg": "tight"}), torch.no_grad():
+                out2 = model2(Xs)
+                gm2, gc2 = out2.mean, out2.covariance_matrix
+        ctx.close("train_cg_invariance.mean", gm, gm2, rtol=1e-7, atol=1e-7, scale=scale)
+        ctx.close("train_cg_invariance.cov", gc, gc2, rtol=1e-7, atol=1e-7, scale=scale)
     if case["prior_mode"]:
         ctx.close("prior_mode.mean", pm, ms.expand(*bshape, ns), rtol=1e-9, atol=1e-11)
         ctx.close("prior_mode.cov", pc, Kss.expand(*bshape, ns, ns), rtol=1e-9, atol=1e-11)
@@ -289,6 +342,7 @@ RULE = ("exact-GP recipe (mean in {Zero, Constant, Linear}; kernel expression tr
 
 SUBCHECKS = [
     Subcheck("exact.posterior", run_posterior, strategy=posterior_case, quick=1600, thorough=50000, min_shard=50),
+    Subcheck("exact.cg_larger", run_posterior, strategy=cg_larger_case, quick=300, thorough=6000, min_shard=30),
     Subcheck("exact.multitask", run_multitask, strategy=multitask_posterior_case, quick=600, thorough=20000, min_shard=40),
     Subcheck("exact.multioutput", run_multioutput, strategy=multioutput_case, quick=300, thorough=15000, min_shard=40),
 ]
